@@ -347,6 +347,16 @@ func (ex *exec) inline(st *State, fi *FuncInfo, recv Value, args []Value, call *
 		}
 	}
 	merged := ex.mergeStates(rets)
+	if len(merged) > 1 {
+		// drop return paths that the solver shows infeasible
+		var live []*State
+		for _, m := range merged {
+			if !ex.lemma(m, False, "infeasible-path", call.Pos()) {
+				live = append(live, m)
+			}
+		}
+		merged = live
+	}
 	if len(merged) != 1 {
 		ex.fail(call.Pos(), "cannot merge the %d return paths of inlined %s", len(merged), fi.Key)
 	}
@@ -452,7 +462,9 @@ func (ex *exec) evalBuiltin(st *State, name string, call *ast.CallExpr) Value {
 		if len(call.Args) > 2 {
 			c = ex.evalIndex(st, call.Args[2])
 		}
-		ex.oblige(st, "make", "len", And(ex.le(ex.idxConst(0), n), ex.le(n, c)), call.Pos())
+		ex.runtimeCheck(st, "make", "len", And(ex.le(ex.idxConst(0), n), ex.le(n, c)), call.Pos())
+		// an allocation beyond the address space cannot succeed (resource exhaustion is out of scope)
+		st.assume(ex.le(c, ex.lenBound()))
 		return ex.makeSlice(st, sl.Elem(), n, c, call.Pos())
 	case "copy":
 		dst := ex.evalExpr(st, call.Args[0]).(*Slice)
